@@ -109,6 +109,7 @@ func Run(seed uint64, controlled bool, main func()) (panicked any) {
 	viols = nil
 	siteHits = map[string]int{}
 	lockWaits = 0
+	resetPools(seed)
 	mu.Unlock()
 	defer func() {
 		mu.Lock()
